@@ -2,7 +2,12 @@
 Dimensions: schedule (`for A in V` in unit-rule elimination and fresh-variable naming; hash seed x variable renaming x insertion order)."""
 import copy
 
-from props.common import call, viol, hx
+from props.common import call as _call, viol, hx
+
+
+def call(env, fn, *a, **k):
+    k.setdefault('budget', 20_000_000)      # termination is not what this property is about: generous budget, see DESIGN 8.6
+    return _call(env, fn, *a, **k)
 from sim.objects import build, snapshot, order_fingerprint
 from ref import cfg as rcfg
 from gen import cfg as gencfg, edits
